@@ -4,7 +4,7 @@
    for any number of producers / callbacks per producer / getter threads. *)
 From Coq Require Import List Arith Bool.
 Import ListNotations.
-From C17 Require Import Sem Progs Static Annot.
+From C17 Require Import Sem Progs Static Annot FutRaw.
 
 (* Data-race freedom of the model: whenever a thread is about to execute an instruction that reads
    or writes a shared variable or the callback queue, it owns the mutex that protects it
@@ -77,3 +77,15 @@ Theorem c17_start_spurious_before_fix :
   snd (run P 4000 (init_exec [1]) [500; 500; 500; 500; 1000] 0 []) = Finished.
 Proof. split; vm_compute; reflexivity. Qed.
 Print Assumptions c17_start_spurious_before_fix.
+
+(* ---- FutureImpl, raw-pointer pattern of ExecutorThread::DrainCallbacks (scenario init_fut_raw:
+   the owner thread has the Future on its stack, calls Get and destroys it; the setter thread only has
+   a pointer and calls Set), with fix 01, under EVERY schedule including spurious wake-ups:
+   no hazard at all is reachable (in particular no step touches the freed FutureImpl, the object is
+   not destroyed while its mutex is held or a thread waits on its condition), and a Get that has
+   returned returned the value passed to Set, after Set (m_is_set is 1). *)
+Theorem c17_future_raw : forall s, reach P init_fut_raw s ->
+  fault s = None /\
+  (forall t k v, In (t, k, v) (outs s) -> k = OUT_GET -> v = THE_VALUE /\ var s ISSET = 1).
+Proof. exact FutRaw.fut_raw_safe. Qed.
+Print Assumptions c17_future_raw.
